@@ -492,6 +492,100 @@ def merge_accumulators(repo, cls, fn, loop, report_ok, report_bad):
                 'lost' % (norm_stmt(a)[:70], U(args[0])[:30], v))
 
 
+def cursor_increments(loop, v):
+    """Per-iteration increment of the running variable v on every path
+    through the body of `loop`: list of (tests taken, sympy expr or None).
+    Calls are opaque symbols named by their text; paths ending in
+    return / raise / break are dropped."""
+    import sympy as sp
+
+    def ev(e, env):
+        if isinstance(e, ast.Constant) and isinstance(e.value, (int, float)) \
+                and not isinstance(e.value, bool):
+            return sp.nsimplify(e.value)
+        if isinstance(e, ast.Name):
+            return env.get(e.id, sp.Symbol(e.id))
+        if isinstance(e, ast.BinOp) and isinstance(
+                e.op, (ast.Add, ast.Sub, ast.Mult)):
+            a, b = ev(e.left, env), ev(e.right, env)
+            if a is None or b is None:
+                return None
+            return {ast.Add: a + b, ast.Sub: a - b,
+                    ast.Mult: a * b}[type(e.op)]
+        if isinstance(e, (ast.Call, ast.Attribute, ast.Subscript)):
+            return sp.Symbol(U(e).replace(' ', ''))
+        return None
+    out = []
+
+    def run(stmts, env, conds):
+        """-> list of (env, conds) for paths that fall through"""
+        live = [(env, conds)]
+        for s in stmts:
+            nxt = []
+            for env, conds in live:
+                if isinstance(s, ast.Assign) and len(s.targets) == 1 \
+                        and isinstance(s.targets[0], ast.Name):
+                    e2 = dict(env)
+                    e2[s.targets[0].id] = ev(s.value, env)
+                    nxt.append((e2, conds))
+                elif isinstance(s, ast.Assign) and len(s.targets) == 1 \
+                        and isinstance(s.targets[0], ast.Tuple) \
+                        and isinstance(s.value, ast.Tuple) and len(
+                            s.targets[0].elts) == len(s.value.elts):
+                    e2 = dict(env)
+                    for t, x in zip(s.targets[0].elts, s.value.elts):
+                        if isinstance(t, ast.Name):
+                            e2[t.id] = ev(x, env)
+                    nxt.append((e2, conds))
+                elif isinstance(s, ast.Assign):
+                    e2 = dict(env)
+                    for t in s.targets:
+                        for x in ast.walk(t):
+                            if isinstance(x, ast.Name) and isinstance(
+                                    x.ctx, ast.Store):
+                                e2[x.id] = sp.Symbol(
+                                    '%s@%d' % (x.id, s.lineno))
+                    nxt.append((e2, conds))
+                elif isinstance(s, ast.AugAssign) and isinstance(
+                        s.target, ast.Name) and isinstance(
+                        s.op, (ast.Add, ast.Sub)):
+                    e2 = dict(env)
+                    cur = env.get(s.target.id, sp.Symbol(s.target.id))
+                    d = ev(s.value, env)
+                    e2[s.target.id] = None if cur is None or d is None \
+                        else (cur + d if isinstance(s.op, ast.Add)
+                              else cur - d)
+                    nxt.append((e2, conds))
+                elif isinstance(s, ast.If):
+                    nxt += run(s.body, dict(env), conds + [(s.test, True)])
+                    nxt += run(s.orelse, dict(env),
+                               conds + [(s.test, False)])
+                elif isinstance(s, ast.Continue):
+                    out.append((conds, env.get(v, sp.Symbol(v))))
+                elif isinstance(s, (ast.Return, ast.Raise, ast.Break)):
+                    pass
+                elif isinstance(s, (ast.For, ast.While)):
+                    e2 = dict(env)
+                    for x in ast.walk(s):
+                        if isinstance(x, ast.Name) and isinstance(
+                                x.ctx, ast.Store):
+                            e2[x.id] = None
+                    nxt.append((e2, conds))
+                elif isinstance(s, (ast.With, ast.Try)):
+                    nxt += run(s.body, dict(env), conds)
+                else:
+                    nxt.append((env, conds))
+            live = nxt
+        return live
+    for env, conds in run(loop.body, {}, []):
+        out.append((conds, env.get(v, sp.Symbol(v))))
+    res = []
+    for conds, val in out:
+        res.append((conds, None if val is None
+                    else sp.expand(val - sp.Symbol(v))))
+    return res
+
+
 def desugar_slices(fn):
     """Rewrite slice objects into the end-variable idiom the rule reads:
 
@@ -582,6 +676,89 @@ def desugar_slices(fn):
     return new
 
 
+def _cumulative_tables(fn):
+    """Names of lists holding cumulative block boundaries:
+       B = [0]; for w in W: B.append(B[-1] + w)      or
+       B = np.cumsum([0] + W) / np.cumsum([0] + list(W)) / np.hstack([0, ..])
+    """
+    out = set()
+    for a in ast.walk(fn):
+        if isinstance(a, ast.Assign) and len(a.targets) == 1 and isinstance(
+                a.targets[0], ast.Name):
+            v = a.value
+            name = a.targets[0].id
+            if isinstance(v, ast.Call) and U(v.func) in (
+                    'np.cumsum', 'numpy.cumsum') and v.args and U(
+                    v.args[0]).replace(' ', '').startswith('[0]+'):
+                out.add(name)
+            if isinstance(v, ast.List) and len(v.elts) == 1 and isinstance(
+                    v.elts[0], ast.Constant) and v.elts[0].value == 0:
+                # grown by appending last + width
+                for c in ast.walk(fn):
+                    if isinstance(c, ast.Call) and isinstance(
+                            c.func, ast.Attribute) and c.func.attr == \
+                            'append' and U(c.func.value) == name and c.args \
+                            and isinstance(c.args[0], ast.BinOp) \
+                            and isinstance(c.args[0].op, ast.Add) and U(
+                                c.args[0].left) == '%s[-1]' % name:
+                        out.add(name)
+    return out
+
+
+def boundary_slices(repo, cls, fn, loop, tables, report_ok, report_bad):
+    """Blocks cut with a table of cumulative boundaries: the k-th block is
+    x[B[k]:B[k + 1]] with k the index of the loop."""
+    if not tables:
+        return
+    construct = '%s.%s' % (cls, fn.name) if cls else fn.name
+    # names bound in the loop to B[<expr>]
+    bound = {}
+    for a in ast.walk(loop):
+        if not isinstance(a, ast.Assign):
+            continue
+        pairs = []
+        t = a.targets[0]
+        if isinstance(t, ast.Name):
+            pairs = [(t, a.value)]
+        elif isinstance(t, ast.Tuple) and isinstance(a.value, ast.Tuple) \
+                and len(t.elts) == len(a.value.elts):
+            pairs = list(zip(t.elts, a.value.elts))
+        for tt, vv in pairs:
+            if isinstance(tt, ast.Name) and isinstance(vv, ast.Subscript) \
+                    and U(vv.value) in tables:
+                bound[tt.id] = vv
+
+    def as_ref(e):
+        if isinstance(e, ast.Name) and e.id in bound:
+            e = bound[e.id]
+        if isinstance(e, ast.Subscript) and U(e.value) in tables:
+            return U(e.value), U(e.slice).replace(' ', '')
+        return None
+    for n in ast.walk(loop):
+        if not isinstance(n, ast.Slice) or n.lower is None \
+                or n.upper is None:
+            continue
+        if _innermost_loop(n, fn) is not loop:
+            continue
+        lo, hi = as_ref(n.lower), as_ref(n.upper)
+        if lo is None and hi is None:
+            continue
+        where = repo.loc(n, cls, fn.name)
+        if lo and hi and lo[0] == hi[0] and hi[1] in (
+                lo[1] + '+1', '1+' + lo[1]):
+            report_ok(where, construct,
+                      'block `%s` is cut at consecutive cumulative '
+                      'boundaries %s[k], %s[k+1]' % (U(n), lo[0], lo[0]))
+        else:
+            report_bad(
+                where, construct, 'boundaries %s' % U(n)[:30],
+                'slice `%s` does not run between consecutive entries of '
+                'the cumulative boundary table (`%s` .. `%s`): the block '
+                'does not match the element\'s own width' % (
+                    U(n), '%s[%s]' % lo if lo else U(n.lower),
+                    '%s[%s]' % hi if hi else U(n.upper)))
+
+
 def scoped(name, classes=None, files=None, floor=1):
     """R05.4 restricted to some classes / files (same rule, own floor)."""
     def rule(ctx, repo):
@@ -609,6 +786,7 @@ def r05_4(ctx, repo, classes=None, files=None, floor=24):
             continue
         fn = desugar_slices(fn)
         zeros = _zero_inits(fn)
+        tables = _cumulative_tables(fn)
         for loop in ast.walk(fn):
             if isinstance(loop, ast.For):
                 before = len(ctx.obligations)
@@ -616,6 +794,7 @@ def r05_4(ctx, repo, classes=None, files=None, floor=24):
                     analyse_loop(repo, rel, cls, fn, loop, zeros, ok, bad)
                 extra_checks(repo, cls, fn, loop, zeros, ok, bad)
                 merge_accumulators(repo, cls, fn, loop, ok, bad)
+                boundary_slices(repo, cls, fn, loop, tables, ok, bad)
                 if len(ctx.obligations) > before:
                     n_loops += 1
     if n_loops < floor:
